@@ -444,7 +444,27 @@ def specific_factory(fmt):
     return fits_reader
 
 
-def judge(case, cols, exp, mask, rows):
+def pandas_na_class(got, want, mask, rows, fmt):
+    """known finding csv-pandas-reader-takes-text-for-missing: the ONLY difference is that text cells spelled like one of pandas'
+    default missing-value markers came back as missing ('nan' in a text column; an all-NaN float column when every selected cell is
+    such a marker)"""
+    if fmt != 0 or want.dtype.kind not in 'US' or not rows:
+        return False
+    w = want if mask is None else want[mask]
+    cells = [v.decode('ascii') if isinstance(v, bytes) else str(v) for v in w.ravel().tolist()]
+    if not any(c in PANDAS_NA for c in cells):
+        return False
+    got = np.asarray(got)
+    if got.shape != w.shape:
+        return False
+    if got.dtype.kind == 'f':
+        return all(c in PANDAS_NA for c in cells) and bool(np.all(np.isnan(got)))
+    w2 = np.array(['nan' if c in PANDAS_NA else c for c in cells], dtype=object).reshape(w.shape)
+    g2 = np.array([v.decode('ascii') if isinstance(v, bytes) else str(v) for v in got.ravel().tolist()], dtype=object).reshape(got.shape)
+    return bool(np.all(g2 == w2))
+
+
+def judge(case, cols, exp, mask, rows, which=None):
     """compare loaded columns with the expectation -> (problem or None, finding key or None)"""
     fmt = case['fmt']
     ci = fmt == 4
@@ -466,6 +486,13 @@ def judge(case, cols, exp, mask, rows):
             if (fmt == 0 and len(exp) == 1 and want.dtype.kind in 'US' and r.startswith('text')
                     and any(' ' in (v.decode('ascii') if isinstance(v, bytes) else str(v)) for v in (want if mask is None else want[mask]).ravel().tolist())):
                 return 'component %s: %s' % (n, r), 'csv-single-text-column-with-blank-is-split'
+            if which == 'specific' and pandas_na_class(got, want, mask, rows, fmt):
+                # every other column must still be right
+                for (n2, got2), (_, want2) in zip(cols, exp):
+                    r2 = same_values(None, got2, want2, mask, rows, fmt)
+                    if r2 and not pandas_na_class(got2, want2, mask, rows, fmt):
+                        return 'component %s: %s' % (n2, r2), None
+                return 'component %s: %s' % (n, r), 'csv-pandas-reader-takes-text-for-missing'
             return 'component %s: %s' % (n, r), None
     return None, None
 
@@ -531,7 +558,7 @@ def run_case_impl(R, case, idx, session=False, again=True):
             res['problems'].append(('load_data returns no dataset for a FITS table with zero selected rows (the FITS-table factory returns the empty table)',
                                     'fits-table-zero-rows-autoload-returns-nothing'))
             continue
-        pr, key = judge(case, cols, exp, mask, rows)
+        pr, key = judge(case, cols, exp, mask, rows, which=which)
         if pr:
             res['problems'].append(('%s loader: %s' % (which, pr), key))
     if mask is not None and not rows and again:
@@ -623,6 +650,12 @@ NON_ASCII = ['\u00e9', '\u00fc', '\u00f1', '\u00df', '\u00d8',              # La
              'e\u0301', 'n\u0303']                                                # combining marks
 
 
+MARKER_TEXT = ['NA', 'N/A', 'null', '--', 'NULL', 'n/a', 'None', 'none', 'missing', '-', '...', 'x--', 'NAM', '<NA>']   # (no cell starting with '#': ASCII readers take such a line for a comment - not explored)
+# what pandas.read_csv takes for a missing value by default (pandas 2/3 `STR_NA_VALUES`); glue's pandas_read_table does not switch it off
+PANDAS_NA = {'', '#N/A', '#N/A N/A', '#NA', '-1.#IND', '-1.#QNAN', '-NaN', '-nan', '1.#IND', '1.#QNAN', '<NA>', 'N/A', 'NA', 'NULL',
+             'NaN', 'None', 'n/a', 'nan', 'null'}
+
+
 def rand_text(rng, allow_empty=False, unicode=False):
     n = rng.randrange(2, 5)
     s = ''.join(rng.choice(LETTERS) for _ in range(n))
@@ -650,6 +683,12 @@ def rand_col(rng, name, n, fmt, int_dtype):
         return (name, 1, int_dtype, vals)
     uni = rng.random() < 0.4        # a column with non-ASCII cells next to plain ASCII ones
     vals = [rand_text(rng, unicode=uni) for _ in range(n)]
+    if rng.random() < 0.35:
+        # text cells that readers like to take for "missing value" markers (round 5, seeded change C19-9): they are ordinary
+        # text and have to come back as they are; always next to ordinary words so that the column stays a text column
+        for j in range(n):
+            if rng.random() < 0.5:
+                vals[j] = rng.choice(MARKER_TEXT)
     return (name, 2, 'U%d' % max(1, max(len(v) for v in vals) if vals else 1), vals)
 
 
